@@ -31,6 +31,7 @@ type Obligation struct {
 	Abstract    bool     `json:"abstract_arith,omitempty"`
 	MaxPaths    int      `json:"max_paths,omitempty"`
 	Oracle      string   `json:"oracle,omitempty"`
+	Solver      string   `json:"solver,omitempty"`
 }
 
 type KnownFinding struct {
@@ -248,6 +249,9 @@ func cmdRun(args []string) int {
 			opts.AbstractArith = o.Abstract
 			if *workers > 0 {
 				opts.Workers = *workers
+			}
+			if o.Solver != "" && os.Getenv("VERIF_SOLVER") == "" {
+				opts.SolverKind = o.Solver
 			}
 			if o.MaxPaths > 0 {
 				opts.MaxPaths = o.MaxPaths
@@ -535,6 +539,11 @@ func writeEvidence(prop, tier string, results []*oblResult, replays int, wall fl
 			continue
 		}
 		st := r.Res.Stats
+		solverUsed := r.O.Solver
+		if solverUsed == "" || os.Getenv("VERIF_SOLVER") != "" {
+			solverUsed = symexec.SolverKind()
+		}
+		assum["solver for "+r.O.Name+": "+solverUsed] = true
 		s := sample{Obligation: r.O.Name, Harness: r.O.Func, Package: r.O.Pkg, Bounds: r.O.Bounds, Oracle: r.O.Oracle,
 			Paths: st.Paths, Completed: st.PathsOK, Dropped: st.PathsAssume, Decisions: st.Decisions, Queries: st.Queries,
 			Sat: st.Sat, Unsat: st.Unsat, Unknown: st.Unknown, AssertQ: st.AssertChecks, AssertUnsat: st.AssertProved,
